@@ -150,7 +150,7 @@ theorem cas_step {env : Env} {p : Bytes} {f : Nat → Option Json → Json} {V :
         have hne : changeResp (mutate env .patch ep (.val (f c (some v))) false y.s).2 ≠ .okWrite :=
           fun h => hacc2 ((changeResp_ok_iff _).1 h)
         have hsame := mutate_rejected (env := env) (m := .patch) (path := ep) (body := .val (f c (some v))) (force := false)
-          hi.inv hund hi.key (fun h => hacc2 (Or.inl h)) (fun h => hacc2 (Or.inr h))
+          hi.inv hund (fun h => hacc2 (Or.inl h)) (fun h => hacc2 (Or.inr h))
         generalize hx : changeResp (mutate env .patch ep (.val (f c (some v))) false y.s).2 = resp at hne
         cases resp with
         | okWrite => exact absurd rfl hne
